@@ -219,6 +219,7 @@ class Disassembly:
                     while i < len(block.blocks) and block.blocks[i].start < end:
                         next_sub_block = block.blocks[i]
                         sub_block.instructions += next_sub_block.instructions
+                        sub_block.ignoreua_directives.update(next_sub_block.ignoreua_directives)
                         sub_block.end = next_sub_block.end
                         i += 1
 
